@@ -7,7 +7,11 @@ import (
 	"errors"
 	"net"
 
+	"github.com/cloudwego/hertz/pkg/app"
 	"github.com/cloudwego/hertz/pkg/app/server/registry"
+	"github.com/cloudwego/hertz/pkg/common/tracer/stats"
+	"github.com/cloudwego/hertz/pkg/protocol"
+	"github.com/cloudwego/hertz/pkg/protocol/suite"
 
 	zz "github.com/cloudwego/hertz/internal/zzverif"
 	"github.com/cloudwego/hertz/pkg/network"
@@ -132,4 +136,82 @@ func ZZ_C18_H3() {
 	} else {
 		zz.Assert("clean-shutdown", err == nil && tr.shutdowns == 1)
 	}
+}
+
+type zzFactory struct{}
+
+func (zzFactory) New(core suite.Core) (protocol.Server, error) { return zzProtoServer{}, nil }
+
+type zzProtoServer struct{}
+
+func (zzProtoServer) Serve(c context.Context, conn network.Conn) error { return nil }
+
+var errZZOnRun = errors.New("zz: OnRun hook failed")
+
+// ZZ_C18_H4: the status machine around Run. An OnRun hook fails or not; Run with a transport
+// whose ListenAndServe returns at once. A server whose Run failed in a hook was never running:
+// a Shutdown afterwards reports "not running" and fires no shutdown hook; after a Run that
+// served and returned, Shutdown reports an error as well (the server is closed).
+func ZZ_C18_H4() {
+	e := zzNewEngine()
+	e.protocolSuite = suite.New()
+	e.AddProtocol(suite.HTTP1, zzFactory{})
+	tr := &zzTransport{}
+	e.transport = tr
+	hookFails := zz.Choose("onRunHookFails", 2) == 1
+	ranRun := 0
+	e.OnRun = append(e.OnRun, func(ctx context.Context) error {
+		ranRun++
+		if hookFails {
+			return errZZOnRun
+		}
+		return nil
+	})
+	shut := 0
+	e.OnShutdown = append(e.OnShutdown, func(ctx context.Context) { shut++ })
+	err := e.Run()
+	zz.Cover("reached-assert", true)
+	zz.Cover("hook-failed", hookFails)
+	zz.Assert("run-hook-ran-once", ranRun == 1)
+	if hookFails {
+		zz.Assert("run-reports-the-hook-error", err == errZZOnRun)
+		zz.Assert("server-that-never-ran-is-not-running", !e.IsRunning())
+	} else {
+		zz.Assert("run-returns-after-serving", err == nil)
+	}
+	err2 := e.Shutdown(context.Background())
+	zz.Assert("shutdown-of-a-server-that-is-not-running-reports-an-error", err2 != nil)
+	zz.Assert("no-shutdown-hook-on-a-server-that-is-not-running", shut == 0 && tr.shutdowns == 0)
+}
+
+type zzNopTracer struct{}
+
+func (zzNopTracer) Start(ctx context.Context, c *app.RequestContext) context.Context { return ctx }
+func (zzNopTracer) Finish(ctx context.Context, c *app.RequestContext)                {}
+
+// ZZ_C19_H2: the engine's trace set-up. Start/finish pairs are delivered for every handled
+// request whenever a tracer is registered - the trace level only selects which stage events are
+// recorded - and never when none is: enableTrace after initTrace is exactly "a tracer is
+// registered", at every level, and the level is passed through unchanged.
+func ZZ_C19_H2() {
+	e := zzNewEngine()
+	e.enableTrace = true // as NewEngine sets it
+	withTracer := zz.Choose("tracerRegistered", 2) == 1
+	if withTracer {
+		e.options.Tracers = append(e.options.Tracers, zzNopTracer{})
+	}
+	lv := []stats.Level{stats.LevelDisabled, stats.LevelBase, stats.LevelDetailed}[zz.Choose("level", 3)]
+	explicit := zz.Choose("levelConfigured", 2) == 1
+	if explicit {
+		e.options.TraceLevel = lv
+	}
+	got := initTrace(e)
+	zz.Cover("reached-assert", true)
+	zz.Assert("tracing-enabled-iff-a-tracer-is-registered", e.enableTrace == withTracer)
+	if explicit {
+		zz.Assert("configured-level-is-used", got == lv)
+	} else {
+		zz.Assert("default-level-is-detailed", got == stats.LevelDetailed)
+	}
+	zz.Assert("tracer-reaches-the-controller", e.tracerCtl.HasTracer() == withTracer)
 }
